@@ -503,6 +503,48 @@ def _confirm_step(table, alias_sets, window_keys, W):
                        "only reachable from larger tables)")
 
 
+def h_twin_chips(ctx, W, routes):
+    """minimise_tables over two chips whose tables have the same keys, masks
+    and routes and differ only in the sources (a default-routable entry on
+    the first chip, the same entry also fed by a local core -- source None --
+    on the second): whatever is shared between chips inside one call must
+    tell them apart.  The key prefix is concrete here so that code which
+    prints or hashes entries does not branch on 32 symbolic bits."""
+    from rig.routing_table import MinimisationFailedError, RoutingTableEntry
+    import rig.routing_table as rt
+    n = len(routes)
+    ta = make_table(ctx, n, W, routes, "d" * n, "orthogonal", False)
+    P0 = 0x5a5a0000
+    win = (1 << W) - 1
+    ta = [RoutingTableEntry(e.route, (e.key & win) | (P0 & ~win & F32),
+                            (e.mask & win) | (F32 & ~win), set(e.sources))
+          for e in ta]
+    tb = [RoutingTableEntry(e.route, e.key, e.mask, set(e.sources) | {None})
+          for e in ta]
+    first = ctx.pick([0, 1])
+    order = [((0, 0), ta), ((1, 0), tb)]
+    if first:
+        order.reverse()
+    from collections import OrderedDict
+    tables = OrderedDict(order)
+    pk = ctx.bv("pk", 32)
+    _check_process_state(ctx)
+    try:
+        out = rt.minimise_tables(tables, None)
+    except Exception as e:
+        ctx.observe(type(e).__name__)
+        ctx.prove(False, "minimise-unexpected-exception", repr(e))
+        return
+    ctx.witness("returned")
+    oa, ob = out.get((0, 0), []), out.get((1, 0), [])
+    ctx.observe(len(oa), len(ob))
+    if len(oa) < n:
+        ctx.witness("shrunk")
+    check_equivalent(ctx, ta, oa, pk, "minimise-route-changed")
+    check_equivalent(ctx, tb, ob, pk, "minimise-route-changed")
+    _check_process_state(ctx)
+
+
 def h_empty(ctx):
     from rig.routing_table import MinimisationFailedError
     from rig.routing_table import remove_default_routes as rdr
@@ -604,6 +646,10 @@ def units(tier, seed):
         # (1 500 paths, one to seven CPU-minutes of solver time depending on
         # the load of the machine: thorough only)
         step(2, "AAB", "uuu", (0, 0, 2), split=7)
+    us.append(Unit("tables twin chips W=2 routes=AB (sources differ only)",
+                   h_twin_chips, dict(W=2, routes="AB"), split=4,
+                   witnesses=("returned", "shrunk"),
+                   path_timeout_s=300, timeout_ms=300000))
     us.append(Unit("tables two chips W=2 A=AA B=BA target=dict", h_two_chips,
                    dict(W=2, routes_a="AA", routes_b="BA", srcs_b="du",
                         target="dict"), split=5,
